@@ -229,7 +229,9 @@ def main():
             path = save_log_replay(pid, "race", text[m:m + 12000])
             violations.append((pid + "/data-race", path, "race detector report"))
         if rc != 0:
-            if "panic: test timed out" in text or rc == -9:
+            if "HARNESS-BUG" in text:
+                inconclusive.append("%s shard %d: %s" % (r["name"], s, text[text.find("HARNESS-BUG"):][:400]))
+            elif "panic: test timed out" in text or rc == -9:
                 inconclusive.append("%s shard %d: timeout" % (r["name"], s))
             elif nviol == 0 and "WARNING: DATA RACE" not in text:
                 if "panic:" in text or "fatal error:" in text or "SIGSEGV" in text:
